@@ -475,7 +475,7 @@ def scenario(calls, cutA, cutB, chunkA=7, chunkB=7, loss="lost", stall_release="
         elif loss == "garbage-then-lost":
             # the peer sends a protocol violation (over-long header, witness of the repaired D2): the caller must drop
             # the connection by itself -- no exception may escape dataReceived -- and then sees connectionLost
-            A.dataReceived(b"\x00" * 70 + b"x" * 300)
+            A.dataReceived(b"\x00" * 370)
             if not tA.closed and sentB in (0, len(tB.out)):      # only at a token boundary is it certainly a violation
                 rec.errors.append("protocol violation did not make the broker close its transport")
             A.connectionLost(done)
